@@ -268,6 +268,7 @@ func vhLastElem(p string) string {
 // shape: 0 ""  1 "0xH"  2 "0xH, 0xH?"  3 "_, ..."  4 "{0xH, 0xH}, 0xH"
 //
 //	5 "{{0xH}, {}}"  6 "{{{{{0xH}}}}}"  7 "0xH, {0xH, ...}"  8 "0xHHHHHHHHHHHHHHHH" (16 digits)
+//	9 "{0xH, 0xH?}"  10 "{0xH, {0xH?, _}}, 0xH?"
 func vhArgsModel(tag string, shape int) ([]byte, Args) {
 	n := 0
 	hx := func(k int) ([]byte, Arg) {
@@ -306,9 +307,23 @@ func vhArgsModel(tag string, shape int) ([]byte, Args) {
 		in := agg(a2)
 		in.Fields.Elided = true
 		return vhCat(t1, []byte(", {"), t2, []byte(", ...}")), Args{Values: []Arg{a1, in}}
-	default:
+	case 8:
 		t, a := hx(16)
 		return t, Args{Values: []Arg{a}}
+	case 9:
+		// inaccurate value as the last element of an aggregate
+		t1, a1 := hx(1)
+		t2, a2 := hx(2)
+		a2.IsInaccurate = true
+		return vhCat([]byte("{"), t1, []byte(", "), t2, []byte("?}")), Args{Values: []Arg{agg(a1, a2)}}
+	default:
+		// inaccurate / too-large values closing a nested aggregate, then more arguments
+		t1, a1 := hx(1)
+		t2, a2 := hx(1)
+		a2.IsInaccurate = true
+		t3, a3 := hx(1)
+		return vhCat([]byte("{"), t1, []byte(", {"), t2, []byte("?, _}}, "), t3, []byte("?")),
+			Args{Values: []Arg{agg(a1, agg(a2, Arg{IsOffsetTooLarge: true})), func() Arg { a3.IsInaccurate = true; return a3 }()}}
 	}
 }
 
@@ -337,7 +352,7 @@ func vhArgsSame(a, b *Args) bool {
 //verif:prop C01
 //verif:param from 3,6
 //verif:param tmpl 0..8
-//verif:param ashape quick=0,2,4,7 thorough=0..8
+//verif:param ashape quick=0,2,4,7,9,10 thorough=0..10
 //verif:param eol 0..1
 //verif:param nc 0..1
 func VH_C01_Func(from, tmpl, ashape, eol, nc int) {
